@@ -30,7 +30,7 @@ type GlyphPosition struct {
 
 	// glyph to which this attaches to, relative to current glyphs;
 	// negative for going back, positive for forward.
-	attachChain int16
+	attachChain int32
 	attachType  uint8 // attachment type, irrelevant if attachChain is 0
 }
 
